@@ -159,6 +159,533 @@ def generate(repo):
     out.append('end Op2.Gen.Formulas\n')
     return '\n'.join(out), fallback
 
+# ======================================================================================================
+# Member functions of the stream classes: `[locals]; if (guard) throw …; [assignments to members]; [return]`
+# ======================================================================================================
+# Output: lean/Op2Model/Gen/Streams.lean (its own file: a change to a stream guard must not disturb the
+# modules — and the model driver — that import Formulas.lean).  For every function of MEMBER_CLASSES
+#
+#   def <Class>_<Fn>_translated : Bool                              -- false = outside the fragment (fallback to L3)
+#   def <Class>_<Fn> (inputs… arguments… : Int) : Option (Int × …)  -- none = the function throws
+#
+# inputs   = integer data members read (`self_<member>`) and zero-argument getters of member objects
+#            (`wrappedStream.Length()` -> `self_wrappedStream_Length`, `streamBuffer.size()` -> …);
+# result   = the values, at exit, of the members / return value / *effects* named in the table.  An effect is
+#            a call the fragment cannot look into — `memcpy`, a call on a member object (`wrappedStream.Seek(x)`,
+#            `streamBuffer.resize(n, 0)`), the construction of the returned object; only its integer arguments
+#            are recorded (a pointer `member + e` / `&member[e]` is recorded as the offset `e`; pointers and
+#            objects that come from parameters are omitted).  The bytes moved by memcpy are NOT translated.
+# Every unsigned node is reduced modulo 2^width in place (literal modulus, so `omega` needs no unfolding);
+# comparisons and && || ! are emitted as Props (`a > b` as `b < a`, which `split`/`simp` leave alone).
+# Calls on `this`: zero-argument getters are inlined; calls to other translated member functions are
+# composed (`(<Class>_<Callee> …).bind fun results => …`).
+# The signature (inputs, number of integer arguments, results) is fixed by the table, not by the source, so a
+# bridging lemma keeps type-checking whatever the body does; a body that reads or writes anything outside its
+# declared interface, or uses a node kind outside the fragment, falls back.
+
+LEAN_KEYWORDS = {'end', 'from', 'at', 'in', 'do', 'then', 'else', 'if', 'let', 'have', 'show', 'fun', 'match', 'with',
+                 'open', 'where', 'by', 'calc', 'def', 'theorem', 'instance', 'structure', 'class', 'namespace',
+                 'section', 'variable', 'universe', 'import', 'return', 'for', 'mut', 'private', 'protected', 'Type',
+                 'Prop', 'Sort', 'using', 'deriving', 'export', 'set_option', 'macro', 'syntax', 'notation', 'infix',
+                 'prefix', 'postfix', 'local', 'attribute', 'abbrev', 'axiom', 'example', 'inductive', 'mutual', 'opaque',
+                 'partial', 'unsafe', 'noncomputable', 'nomatch', 'nofun', 'some', 'none'}
+
+def lname(name):
+    name = re.sub(r'[^A-Za-z0-9_]', '_', name)
+    return name + '_' if name in LEAN_KEYWORDS else name
+
+def ucast(bits, signed, e):
+    if signed: return f'(castS {bits} {e})'
+    return f'({e} % {2 ** bits})'
+
+def is_int(n):
+    try: ctype(n); return True
+    except NotImplementedError: return False
+
+WRAPPERS = ('ExprWithCleanups', 'MaterializeTemporaryExpr', 'CXXBindTemporaryExpr', 'ParenExpr', 'ConstantExpr')
+def strip(n):
+    """drop wrappers that carry no arithmetic"""
+    while n.get('kind') in WRAPPERS: n = n['inner'][0]
+    return n
+
+BASE_CASTS = ('NoOp', 'UncheckedDerivedToBase', 'DerivedToBase')
+def is_this(n):
+    n = strip(n)
+    while n.get('kind') == 'ImplicitCastExpr' and n.get('castKind') in BASE_CASTS: n = strip(n['inner'][0])
+    return n.get('kind') == 'CXXThisExpr'
+
+def this_member(name, ty):
+    return {'kind': 'MemberExpr', 'name': name, 'inner': [{'kind': 'CXXThisExpr'}], 'type': ty}
+
+class Path:
+    """what has happened on the current control-flow path"""
+    def __init__(self, effects=None, touched=None):
+        self.effects = dict(effects or {})      # effect name -> list of Lean variable names
+        self.touched = set(touched or ())       # member objects that received a call which may change them
+    def copy(self): return Path(self.effects, self.touched)
+
+class TrM(Tr):
+    def __init__(self, cls, methods, spec, done, src_text):
+        """methods: (name, nparams) -> definition in the same class; spec: this function's table entry;
+        done: (name, number of integer args) -> table entry of the functions already translated; src_text: file -> text"""
+        super().__init__()
+        self.cls, self.methods, self.spec, self.done, self.src_text = cls, methods, spec, done, src_text
+        self.inputs = list(spec['ins'])
+        self.skipped = []; self.cur = {}; self.path = Path(); self.shapes = {}
+        self.objects = set()                    # object-valued locals whose construction was recorded as an effect
+
+    # ---------- expressions ----------
+    def input(self, key):
+        if key not in self.inputs:
+            raise NotImplementedError(f'reads {key}, which is not among the declared inputs {self.inputs}')
+        return 'self_' + lname(key.replace('.', '_').replace('()', ''))
+    def member_call(self, n):
+        """(object, method name, args): object = 'this' or the name of a data member"""
+        callee = n['inner'][0]
+        if callee.get('kind') != 'MemberExpr': raise NotImplementedError('call through ' + callee.get('kind', '?'))
+        base = strip(callee['inner'][0])
+        if is_this(base): return 'this', callee['name'], n['inner'][1:]
+        while base.get('kind') == 'ImplicitCastExpr' and base.get('castKind') in BASE_CASTS: base = strip(base['inner'][0])
+        if base.get('kind') == 'MemberExpr' and is_this(base['inner'][0]): return base['name'], callee['name'], n['inner'][1:]
+        raise NotImplementedError('member call on ' + base.get('kind', '?'))
+    def limits(self, n):
+        """std::numeric_limits<T>::max() / min(): the value follows from the (typed) result; the spelling is checked"""
+        callee = n['inner'][0]
+        while callee.get('kind') == 'ImplicitCastExpr': callee = callee['inner'][0]
+        name = callee.get('referencedDecl', {}).get('name')
+        if callee.get('kind') != 'DeclRefExpr' or name not in ('max', 'min') or len(n['inner']) != 1: return None
+        b = n.get('range', {}).get('begin', {}); e = n.get('range', {}).get('end', {})
+        if 'offset' not in b or 'offset' not in e: return None
+        pat = r'(std::)?numeric_limits<[^<>;]*(\([^()]*\))?[^<>;]*>::' + name + r'\(\)'
+        if not any(re.fullmatch(pat, t[b['offset']: e['offset'] + e.get('tokLen', 1)]) for t in self.src_text.values()): return None
+        bits, signed = ctype(n)
+        if name == 'max': return f'({2 ** (bits - 1) - 1 if signed else 2 ** bits - 1} : Int)'
+        return f'({-(2 ** (bits - 1)) if signed else 0} : Int)'
+    def expr(self, n):
+        k = n['kind']
+        if k in WRAPPERS: return self.expr(n['inner'][0])
+        if k == 'CXXBoolLiteralExpr': return '(1 : Int)' if n.get('value') else '(0 : Int)'
+        if k == 'IntegerLiteral': return f'({n["value"]} : Int)'
+        if k == 'MemberExpr':
+            if not is_this(n['inner'][0]): raise NotImplementedError('member of another object: ' + n.get('name', '?'))
+            ctype(n)
+            return self.cur.get(n['name']) or self.input(n['name'])
+        if k == 'DeclRefExpr':
+            ctype(n); return lname(n['referencedDecl']['name'])
+        if k == 'CXXMemberCallExpr':
+            obj, m, args = self.member_call(n)
+            ctype(n)
+            if args: raise NotImplementedError(f'value of {obj}.{m}(…) with arguments')
+            if obj == 'this':                                  # inline a getter: `{ return e; }`
+                d = self.methods.get((m, 0))
+                body = [c for c in (d or {}).get('inner', []) if c['kind'] == 'CompoundStmt']
+                ss = body[0].get('inner', []) if body else []
+                if len(ss) != 1 or ss[0]['kind'] != 'ReturnStmt': raise NotImplementedError(f'{m}() is not a plain getter')
+                return self.expr(ss[0]['inner'][0])
+            if obj in self.path.touched: raise NotImplementedError(f'{obj}.{m}() read after a call that may change {obj}')
+            return self.input(f'{obj}.{m}()')
+        if k == 'CallExpr':
+            v = self.limits(n)
+            if v is None: raise NotImplementedError('call of a free function inside an expression')
+            return v
+        if k in ('ImplicitCastExpr', 'CXXStaticCastExpr', 'CStyleCastExpr', 'CXXFunctionalCastExpr'):
+            ck = n.get('castKind'); inner = n['inner'][0]
+            if ck in ('LValueToRValue', 'NoOp'): return self.expr(inner)
+            if ck == 'IntegralCast':
+                b, s = ctype(n)
+                if ctype(inner) == (1, False): return f'(if {self.cond(inner)} then (1 : Int) else 0)'
+                return ucast(b, s, self.expr(inner))
+            if ck == 'IntegralToBoolean': return f'(if {self.cond(n)} then (1 : Int) else 0)'
+            raise NotImplementedError('cast ' + str(ck))
+        if k == 'UnaryOperator':
+            op = n['opcode']
+            if op == '!': return f'(if {self.cond(n)} then (1 : Int) else 0)'
+            b, s = ctype(n); a = self.expr(n['inner'][0])
+            if op == '+': return a
+            if op == '~': return ucast(b, s, f'(-{a} - 1)')
+            if op == '-': return ucast(b, s, f'(-{a})')
+            raise NotImplementedError('unop ' + op)
+        if k == 'BinaryOperator':
+            op = n['opcode']
+            if op in ('<', '>', '<=', '>=', '==', '!=', '&&', '||'): return f'(if {self.cond(n)} then (1 : Int) else 0)'
+            if op in ('=', ','): raise NotImplementedError(f'operator {op} inside an expression')
+            b, s = ctype(n); l = self.expr(n['inner'][0]); r = self.expr(n['inner'][1])
+            if op in ('+', '-', '*'): return ucast(b, s, f'({l} {op} {r})')
+            if s: raise NotImplementedError(f'signed {op}')
+            if op == '/': return f'({l} / {r})'      # unsigned; a zero divisor is a fault the fragment does not model
+            if op == '%': return f'({l} % {r})'
+            if op == '&': return f'(Int.ofNat (({l}).toNat &&& ({r}).toNat))'
+            if op == '|': return f'(Int.ofNat (({l}).toNat ||| ({r}).toNat))'
+            raise NotImplementedError('binop ' + op)
+        if k == 'ConditionalOperator':
+            c = self.cond(n['inner'][0]); a = self.expr(n['inner'][1]); b = self.expr(n['inner'][2])
+            return f'(if {c} then {a} else {b})'
+        raise NotImplementedError('expr ' + k)
+    def cond(self, n):
+        """a bool-valued node as a Lean Prop"""
+        k = n['kind']
+        if k in WRAPPERS: return self.cond(n['inner'][0])
+        if k == 'CXXBoolLiteralExpr': return 'True' if n.get('value') else 'False'
+        if k == 'ImplicitCastExpr' and n.get('castKind') == 'IntegralToBoolean': return f'({self.expr(n["inner"][0])} ≠ 0)'
+        if k == 'ImplicitCastExpr' and n.get('castKind') in ('LValueToRValue', 'NoOp') and ctype(n) == (1, False):
+            return self.cond(n['inner'][0])
+        if k == 'UnaryOperator' and n['opcode'] == '!': return f'(¬ {self.cond(n["inner"][0])})'
+        if k == 'BinaryOperator':
+            op = n['opcode']; a, b = n['inner']
+            if op == '&&': return f'({self.cond(a)} ∧ {self.cond(b)})'
+            if op == '||': return f'({self.cond(a)} ∨ {self.cond(b)})'
+            if op in ('<', '>', '<=', '>=', '==', '!='):
+                l = self.expr(a); r = self.expr(b)
+                return {'<': f'({l} < {r})', '>': f'({r} < {l})', '<=': f'({l} ≤ {r})', '>=': f'({r} ≤ {l})',
+                        '==': f'({l} = {r})', '!=': f'({l} ≠ {r})'}[op]
+        return f'({self.expr(n)} ≠ 0)'
+    def pointer(self, n):
+        """a pointer expression as (base member, or None when it comes from a parameter; offset)"""
+        n = strip(n); k = n['kind']
+        if k in ('ImplicitCastExpr', 'CXXStaticCastExpr', 'CStyleCastExpr', 'CXXReinterpretCastExpr'):
+            if n.get('castKind') in ('LValueToRValue', 'NoOp', 'BitCast', 'ArrayToPointerDecay'): return self.pointer(n['inner'][0])
+            raise NotImplementedError('pointer cast ' + str(n.get('castKind')))
+        if k == 'DeclRefExpr' and n['referencedDecl'].get('kind') == 'ParmVarDecl': return None, '(0 : Int)'
+        if k == 'MemberExpr' and is_this(n['inner'][0]): return n['name'], '(0 : Int)'
+        if k == 'CXXMemberCallExpr':
+            obj, m, args = self.member_call(n)
+            if obj != 'this' and not args and m == 'data': return obj + '.data()', '(0 : Int)'
+            raise NotImplementedError(f'pointer from {obj}.{m}()')
+        if k == 'BinaryOperator' and n['opcode'] in ('+', '-'):
+            a, b = n['inner']
+            if is_int(a) and n['opcode'] == '+': a, b = b, a
+            base, off = self.pointer(a)
+            return base, (self.expr(b) if off == '(0 : Int)' and n['opcode'] == '+' else f'({off} {n["opcode"]} {self.expr(b)})')
+        if k == 'UnaryOperator' and n['opcode'] == '&':
+            s = strip(n['inner'][0])
+            if s['kind'] == 'ArraySubscriptExpr':
+                base, off = self.pointer(s['inner'][0])
+                return base, (self.expr(s['inner'][1]) if off == '(0 : Int)' else f'({off} + {self.expr(s["inner"][1])})')
+        raise NotImplementedError('pointer expression ' + k)
+    def effect_args(self, args):
+        """integer arguments of a call the fragment cannot look into (see the header comment)"""
+        out = []; shape = []
+        for a in args:
+            a0 = strip(a)
+            if a0.get('kind') == 'CXXDefaultArgExpr': shape.append('(default argument, omitted)')
+            elif is_int(a0): out.append(self.expr(a0)); shape.append('int')
+            elif a0.get('type', {}).get('qualType', '').rstrip().endswith('*'):
+                base, off = self.pointer(a0)
+                if base is not None: out.append(off); shape.append(f'offset in {base}')
+                else: shape.append('(pointer parameter, omitted)')
+            else: shape.append('(object, omitted)')
+        return out, shape
+
+    # ---------- statements ----------
+    def bind(self, name, value, indent):
+        return f'let {name} : Int := {value}\n{"  " * indent}'
+    def lhs(self, n):
+        """assignable place -> (kind, C++ name, Lean name)"""
+        n = strip(n)
+        if n['kind'] == 'MemberExpr' and is_this(n['inner'][0]):
+            ctype(n)
+            if n['name'] not in self.spec['outs']:
+                raise NotImplementedError(f'writes member {n["name"]}, which is not among the declared results {self.spec["outs"]}')
+            return 'member', n['name'], 'self_' + lname(n['name'])
+        if n['kind'] == 'DeclRefExpr' and n['referencedDecl'].get('kind') in ('VarDecl', 'ParmVarDecl'):
+            ctype(n); return 'local', n['referencedDecl']['name'], lname(n['referencedDecl']['name'])
+        raise NotImplementedError('assignment to ' + n['kind'])
+    def assign(self, target, value, indent):
+        kind, cname, lean = self.lhs(target)
+        if kind == 'member': self.cur[cname] = lean
+        return self.bind(lean, value, indent)
+    def effect_vars(self, name, arity):
+        if name in self.path.effects: raise NotImplementedError(f'{name} called twice on one path')
+        want = dict(self.spec['effects']).get(name)
+        if want is None: raise NotImplementedError(f'call of {name}, which is not among the declared effects')
+        if arity != want: raise NotImplementedError(f'{name}: {arity} integer arguments, the table expects {want}')
+        names = [f'eff_{lname(name.replace(".", "_"))}_{i}' for i in range(arity)]
+        self.path.effects[name] = names
+        if '.' in name: self.path.touched.add(name.split('.')[0])
+        return names
+    def record(self, name, args, shape, indent):
+        names = self.effect_vars(name, len(args))
+        self.shapes[name] = shape
+        return ''.join(self.bind(v, a, indent) for v, a in zip(names, args))
+    def finish(self, ret):
+        vals = []
+        for o in self.spec['outs']:
+            if o == 'ret':
+                if ret is None: raise NotImplementedError('a path returns no value')
+                vals.append(ret)
+            else: vals.append(self.cur.get(o) or self.input(o))
+        for name, arity in self.spec['effects']:
+            vals += self.path.effects.get(name) or ['(-1 : Int)'] * arity      # -1: not performed on this path
+        return 'some (' + ', '.join(vals) + ')' if vals else 'some ()'
+    def compose(self, m, args, rest, indent):
+        """a call, in statement position, of another member function of this class that is already translated"""
+        if any(not is_int(strip(a)) for a in args): raise NotImplementedError(f'{m}(…) with a non-integer argument')
+        callee = self.done.get((m, len(args)))
+        if callee is None: raise NotImplementedError(f'call of {m}(), which is not translated')
+        actual = [self.cur.get(i) or self.input(i) for i in callee['ins']] + [self.expr(strip(a)) for a in args]
+        pats = []; pad = '  ' * indent
+        for o in callee['outs']:
+            if o == 'ret': pats.append('_')
+            else:
+                self.lhs(this_member(o, {'qualType': 'unsigned long'}))
+                self.cur[o] = 'self_' + lname(o); pats.append(self.cur[o])
+        for name, arity in callee['effects']:
+            pats += self.effect_vars(name, arity)
+            self.shapes.setdefault(name, [f'as in {m}'])
+        pat = '(' + ', '.join(pats) + ')' if len(pats) > 1 else (pats[0] if pats else '_')
+        return (f'({self.cls}_{callee["lean"]} {" ".join(actual)}).bind fun {pat} =>\n{pad}'
+                + self.stmts(rest, indent))
+    def terminates(self, s):
+        if s.get('kind') != 'CompoundStmt': s = strip(s)
+        k = s.get('kind')
+        if k in ('ReturnStmt', 'CXXThrowExpr'): return True
+        if k == 'CompoundStmt': return any(self.terminates(x) for x in s.get('inner', []))
+        if k == 'IfStmt' and len(s['inner']) > 2: return self.terminates(s['inner'][1]) and self.terminates(s['inner'][2])
+        return False
+    def stmts(self, ss, indent):
+        pad = '  ' * indent
+        if not ss: return self.finish(None)
+        s = ss[0]; rest = ss[1:]
+        if s.get('kind') != 'CompoundStmt': s = strip(s)
+        k = s['kind']
+        if k == 'CompoundStmt': return self.stmts(s.get('inner', []) + rest, indent)
+        if k == 'NullStmt': return self.stmts(rest, indent)
+        if k == 'CXXThrowExpr': return 'none'
+        if k == 'ReturnStmt':
+            if not s.get('inner'): return self.finish(None)
+            v = strip(s['inner'][0])
+            if is_int(v) and not (v['kind'] == 'CXXMemberCallExpr' and self.member_call(v)[0] != 'this' and self.member_call(v)[2]):
+                return self.finish(self.expr(v))
+            if v['kind'] == 'CXXConstructExpr' and len(v.get('inner', [])) == 1:      # `return local;` (copy / move of an object
+                a = strip(v['inner'][0])                                             #  whose construction is already recorded)
+                while a.get('kind') == 'ImplicitCastExpr' and a.get('castKind') == 'NoOp': a = strip(a['inner'][0])
+                if a.get('kind') == 'DeclRefExpr' and a['referencedDecl'].get('name') in self.objects: return self.finish(None)
+            if v['kind'] in ('CXXMemberCallExpr', 'CXXConstructExpr', 'CXXTemporaryObjectExpr'):
+                return self.stmts([v], indent)          # the returned object / the forwarded call is an effect
+            raise NotImplementedError('return of ' + v['kind'])
+        if k == 'DeclStmt':
+            out = ''
+            if len(s['inner']) == 1 and s['inner'][0]['kind'] == 'VarDecl' and s['inner'][0].get('inner') and not is_int(s['inner'][0]):
+                init = strip(s['inner'][0]['inner'][0])       # `auto obj = OtherMember(…);` — the object is the callee's effect
+                if init.get('kind') == 'CXXMemberCallExpr' and self.member_call(init)[0] == 'this':
+                    self.objects.add(s['inner'][0]['name'])
+                    return self.compose(self.member_call(init)[1], self.member_call(init)[2], rest, indent)
+                raise NotImplementedError('object-valued local initialised by ' + init.get('kind', '?'))
+            for v in s['inner']:
+                if v['kind'] != 'VarDecl' or not v.get('inner'): raise NotImplementedError('declaration without initialiser')
+                ctype(v)
+                out += self.bind(lname(v['name']), self.expr(v['inner'][0]), indent)
+            return out + self.stmts(rest, indent)
+        if k == 'IfStmt':
+            if s.get('hasInit') or s.get('hasVar'): raise NotImplementedError('if with initialiser')
+            c = self.cond(s['inner'][0]); th = s['inner'][1]; el = s['inner'][2] if len(s['inner']) > 2 else None
+            saved = (dict(self.cur), self.path.copy())
+            t = self.stmts([th] + ([] if self.terminates(th) else rest), indent + 1)
+            self.cur, self.path = dict(saved[0]), saved[1].copy()
+            e = self.stmts(([el] if el else []) + ([] if el and self.terminates(el) else rest), indent + 1)
+            self.cur, self.path = saved
+            return f'if {c} then\n{pad}  {t}\n{pad}else\n{pad}  {e}'
+        if k == 'BinaryOperator' and s['opcode'] == '=':
+            return self.assign(s['inner'][0], self.expr(s['inner'][1]), indent) + self.stmts(rest, indent)
+        if k == 'CompoundAssignOperator':
+            op = s['opcode'][:-1]
+            if op not in ('+', '-', '*'): raise NotImplementedError('compound assignment ' + s['opcode'])
+            def ty(key):
+                q = s[key].get('desugaredQualType', s[key].get('qualType', '')).replace('const ', '').strip()
+                if q not in TYPES: raise NotImplementedError('type ' + q)
+                return TYPES[q]
+            cb, cs = ty('computeResultType'); lb, ls = ctype(s)
+            l = self.expr(s['inner'][0])
+            if ty('computeLHSType') != (lb, ls): l = ucast(*ty('computeLHSType'), l)
+            v = ucast(cb, cs, f'({l} {op} {self.expr(s["inner"][1])})')
+            if (cb, cs) != (lb, ls): v = ucast(lb, ls, v)
+            return self.assign(s['inner'][0], v, indent) + self.stmts(rest, indent)
+        if k == 'UnaryOperator' and s['opcode'] in ('++', '--'):
+            b, sg = ctype(s); a = self.expr(s['inner'][0])
+            return self.assign(s['inner'][0], ucast(b, sg, f'({a} {s["opcode"][0]} 1)'), indent) + self.stmts(rest, indent)
+        if k == 'CXXMemberCallExpr':
+            obj, m, args = self.member_call(s)
+            if obj == 'this': return self.compose(m, args, rest, indent)
+            a, shape = self.effect_args(args)
+            return self.record(f'{obj}.{m}', a, shape, indent) + self.stmts(rest, indent)
+        if k == 'CallExpr':
+            callee = s['inner'][0]
+            while callee.get('kind') == 'ImplicitCastExpr': callee = callee['inner'][0]
+            name = callee.get('referencedDecl', {}).get('name')
+            if name != 'memcpy': raise NotImplementedError(f'call of {name}')
+            a, shape = self.effect_args(s['inner'][1:])
+            self.skipped.append('the bytes moved by memcpy')
+            return self.record('memcpy', a, shape, indent) + self.stmts(rest, indent)
+        if k in ('CXXConstructExpr', 'CXXTemporaryObjectExpr'):
+            a, shape = self.effect_args(s.get('inner', []))
+            return self.record('construct', a, shape, indent) + self.stmts(rest, indent)
+        raise NotImplementedError('stmt ' + k)
+
+    def function(self, decl):
+        params = [c for c in decl.get('inner', []) if c['kind'] == 'ParmVarDecl']
+        ints = [p for p in params if is_int(p)]
+        if len(ints) != self.spec['nargs']:
+            raise NotImplementedError(f'{len(ints)} integer parameters, the table expects {self.spec["nargs"]}')
+        pre = ''
+        for ci in [c for c in decl.get('inner', []) if c['kind'] == 'CXXCtorInitializer']:   # constructor: member(value)
+            fld = ci.get('anyInit', {})
+            if fld.get('kind') != 'FieldDecl': continue                                        # base-class initialiser
+            init = strip(ci['inner'][0]) if ci.get('inner') else None
+            if init is not None and is_int(init) and is_int(fld):
+                pre += self.assign(this_member(fld['name'], fld['type']), self.expr(init), 1)
+            else: self.skipped.append(f'initialisation of member {fld.get("name")}')
+        body = [c for c in decl.get('inner', []) if c['kind'] == 'CompoundStmt']
+        term = pre + self.stmts(body, 1)
+        return [lname(p['name']) for p in ints], term
+
+def collect_methods(objs, cls):
+    """(name, number of parameters) -> definition, for the member functions of class `cls` (for a template: of its
+    instantiation) found in a filtered AST dump"""
+    found = {}
+    def walk(n):
+        k = n.get('kind')
+        if k == 'ClassTemplateDecl':
+            for c in n.get('inner', []):
+                if c.get('kind') == 'ClassTemplateSpecializationDecl' and c.get('name') == cls: walk(c)
+            return
+        if k in ('CXXMethodDecl', 'CXXConstructorDecl') and not n.get('isImplicit'):
+            if any(c.get('kind') == 'CompoundStmt' for c in n.get('inner', [])):
+                np = len([c for c in n['inner'] if c['kind'] == 'ParmVarDecl'])
+                found.setdefault((n['name'], np), n)
+            return
+        if k in ('CXXRecordDecl', 'ClassTemplateSpecializationDecl', 'NamespaceDecl', 'TranslationUnitDecl', 'LinkageSpecDecl'):
+            for c in n.get('inner', []): walk(c)
+    for o in objs: walk(o)
+    return found
+
+def dump_ast(repo, flt, path=None, text=None):
+    cmd = ['clang++-14', '-std=gnu++17', '-fsyntax-only', '-I' + repo + '/src', '-Xclang', '-ast-dump=json',
+           '-Xclang', '-ast-dump-filter=' + flt]
+    cmd += ['-x', 'c++', '-'] if text is not None else [path]
+    out = subprocess.run(cmd, input=text, capture_output=True, text=True)
+    txt = out.stdout; dec = json.JSONDecoder(); i = 0; objs = []
+    while i < len(txt):
+        while i < len(txt) and txt[i] in ' \n\r\t': i += 1
+        if i >= len(txt): break
+        o, j = dec.raw_decode(txt, i); objs.append(o); i = j
+    return objs, out.stderr
+
+def F(fn, np, lean, ins, nargs, outs, effects=()):
+    """C++ name, number of parameters (of any type), Lean name, inputs, number of integer parameters,
+    results (members / 'ret'), effects ((name, number of recorded integer arguments), …)"""
+    return dict(fn=fn, np=np, lean=lean, ins=ins, nargs=nargs, outs=outs, effects=list(effects))
+
+MR = ['streamSize', 'position']; MW = ['streamSize', 'offset']; DW = ['streamBuffer.size()']
+SL = ['startingOffset', 'sliceLength', 'wrappedStream.Position()']
+SLICE_TU = '#include "Stream/SliceReader.h"\ntemplate class OP2Utility::Stream::SliceReader<OP2Utility::Stream::FileReader>;\n'
+# (class, translation unit relative to src/ — or None with the text of a unit that instantiates the template —, AST
+#  filter, files whose text is consulted for the spelling `numeric_limits<…>::max()`, functions in dependency order)
+MEMBER_CLASSES = [
+    ('MemoryReader', 'Stream/MemoryReader.cpp', None, ['Stream/MemoryReader.cpp'], [
+        F('Seek', 1, 'Seek', MR, 1, ['position']),
+        F('SeekForward', 1, 'SeekForward', MR, 1, ['position']),
+        F('SeekBackward', 1, 'SeekBackward', MR, 1, ['position']),
+        F('ReadImplementation', 2, 'ReadImplementation', MR, 1, ['position'], [('memcpy', 2)]),
+        F('ReadPartial', 2, 'ReadPartial', MR, 1, ['position', 'ret'], [('memcpy', 2)]),
+        F('Slice', 2, 'Slice2', MR, 2, [], [('construct', 2)]),
+        F('Slice', 1, 'Slice1', MR, 1, ['position'], [('construct', 2)]),
+    ]),
+    ('MemoryWriter', 'Stream/MemoryWriter.cpp', None, ['Stream/MemoryWriter.cpp'], [
+        F('Seek', 1, 'Seek', MW, 1, ['offset']),
+        F('SeekForward', 1, 'SeekForward', MW, 1, ['offset']),
+        F('SeekBackward', 1, 'SeekBackward', MW, 1, ['offset']),
+        F('WriteImplementation', 2, 'WriteImplementation', MW, 1, ['offset'], [('memcpy', 2)]),
+    ]),
+    ('DynamicMemoryWriter', 'Stream/DynamicMemoryWriter.cpp', None, ['Stream/DynamicMemoryWriter.cpp'], [
+        F('SeekForward', 1, 'SeekForward', DW, 1, [], [('streamBuffer.resize', 2)]),
+        F('SeekBackward', 1, 'SeekBackward', DW, 1, [], [('streamBuffer.resize', 2)]),
+        F('Seek', 1, 'Seek', DW, 1, [], [('streamBuffer.resize', 2)]),
+        F('WriteImplementation', 2, 'WriteImplementation', DW, 1, [], [('streamBuffer.resize', 1), ('memcpy', 2)]),
+    ]),
+    ('SliceReader', None, SLICE_TU, ['Stream/SliceReader.h'], [
+        F('Position', 0, 'Position', SL, 0, ['ret']),
+        F('Initialize', 0, 'Initialize', ['startingOffset', 'sliceLength', 'wrappedStream.Length()'], 0, [], [('wrappedStream.Seek', 1)]),
+        F('SliceReader', 3, 'Create', ['wrappedStream.Length()'], 2, ['startingOffset', 'sliceLength'], [('wrappedStream.Seek', 1)]),
+        F('ReadImplementation', 2, 'ReadImplementation', SL, 1, [], [('wrappedStream.Read', 1)]),
+        F('ReadPartial', 2, 'ReadPartial', SL, 1, [], [('wrappedStream.ReadPartial', 1)]),
+        F('Seek', 1, 'Seek', SL, 1, [], [('wrappedStream.Seek', 1)]),
+        F('SeekForward', 1, 'SeekForward', SL, 1, [], [('wrappedStream.SeekForward', 1)]),
+        F('SeekBackward', 1, 'SeekBackward', SL, 1, [], [('wrappedStream.SeekBackward', 1)]),
+        F('Slice', 2, 'Slice2', SL, 2, [], [('construct', 2)]),
+        F('Slice', 1, 'Slice1', SL, 1, [], [('construct', 2), ('wrappedStream.SeekForward', 1)]),
+    ]),
+]
+
+STREAMS_PRELUDE = """-- GENERATED by extract/c2lean.py (member-function fragment) from the clang-14 typed AST of the current sources; do not edit
+import Op2Model.Gen.Formulas
+/-!
+Guards and cursor updates of the stream classes.  `none` = the function throws.  `some (..)` = the values at exit of the
+members, the return value and the integer arguments of the calls the fragment does not look into ("effects": memcpy,
+calls on a member object, construction of the returned object; `-1` = not performed on that path), in the order given
+in each comment.  Unsigned nodes are reduced modulo 2^width where clang's typed AST says so.
+-/
+set_option linter.unusedVariables false
+namespace Op2.Gen.Streams
+open Op2.Gen.Formulas
+"""
+
+def result_type(spec):
+    n = len(spec['outs']) + sum(a for _, a in spec['effects'])
+    return 'Unit' if n == 0 else ' × '.join(['Int'] * n)
+
+def generate_streams(repo):
+    """returns (lean text, list of functions that fell back)"""
+    from concurrent.futures import ThreadPoolExecutor
+    def load(entry):
+        cls, tu, text, srcs, _ = entry
+        return dump_ast(repo, cls, path=repo + '/src/' + tu if tu else None, text=text)
+    with ThreadPoolExecutor(len(MEMBER_CLASSES)) as ex: dumps = list(ex.map(load, MEMBER_CLASSES))
+    out = [STREAMS_PRELUDE]; fallback = []
+    for (cls, tu, text, srcs, entries), (objs, err) in zip(MEMBER_CLASSES, dumps):
+        src_text = {}
+        for rel in srcs:
+            try:
+                with open(repo + '/src/' + rel, encoding='utf-8', errors='replace') as f: src_text[rel] = f.read()
+            except OSError: pass
+        methods = collect_methods(objs, cls)
+        done = {}
+        where = tu if tu else srcs[0] + ' (instantiated for FileReader)'
+        for spec in entries:
+            name = f'{cls}_{spec["lean"]}'
+            ins = ['self_' + lname(i.replace('.', '_').replace('()', '')) for i in spec['ins']]
+            rt = result_type(spec)
+            try:
+                decl = methods.get((spec['fn'], spec['np']))
+                if decl is None:
+                    raise NotImplementedError('no definition with %d parameters found%s' %
+                                              (spec['np'], '' if objs else ' (clang: ' + err.strip()[-200:] + ')'))
+                tr = TrM(cls, methods, spec, done, src_text)
+                args, term = tr.function(decl)
+                res = list(spec['outs'])
+                for en, ar in spec['effects']:
+                    res.append(f'{en}[' + '; '.join(x for x in tr.shapes.get(en, ['not performed']) if not x.startswith('(')) + ']')
+                doc = (f'/-- `{cls}::{spec["fn"]}` — {where}\n    inputs: {" ".join(ins) or "—"}; arguments: {" ".join(args) or "—"}\n'
+                       f'    result: some ({", ".join(res)}) | none = throws'
+                       + (f'\n    not translated: {"; ".join(sorted(set(tr.skipped)))}' if tr.skipped else '') + ' -/\n')
+                ps = ' '.join(ins + args)
+                out.append(f'def {name}_translated : Bool := true\n{doc}def {name}' + (f' ({ps} : Int)' if ps else '')
+                           + f' : Option ({rt}) :=\n  {term}\n')
+                done[(spec['fn'], spec['nargs'])] = spec
+            except Exception as e:
+                why = str(e) if isinstance(e, NotImplementedError) else f'{type(e).__name__}: {e}'
+                why = why.replace('\n', ' ')
+                fallback.append(f'{cls}::{spec["fn"]}: {why}')
+                blanks = ' '.join('_' for _ in range(len(ins) + spec['nargs']))
+                out.append(f'-- {cls}::{spec["fn"]}: outside the fragment ({why}); tied by correspondence (L3) only\n'
+                           f'def {name}_translated : Bool := false\n'
+                           f'def {name}' + (f' ({blanks} : Int)' if blanks else '') + f' : Option ({rt}) := none\n')
+    out.append('end Op2.Gen.Streams\n')
+    return '\n'.join(out), fallback
+
+
 if __name__ == '__main__':
-    txt, fb = generate(sys.argv[1] if len(sys.argv) > 1 else '/repo')
+    if len(sys.argv) > 2 and sys.argv[2] == 'streams':
+        txt, fb = generate_streams(sys.argv[1])
+    else:
+        txt, fb = generate(sys.argv[1] if len(sys.argv) > 1 else '/repo')
     print(txt); print(fb, file=sys.stderr)
